@@ -16,7 +16,7 @@ import (
 )
 
 func main() {
-	mode := flag.String("mode", "updown", "updown|down|alter")
+	mode := flag.String("mode", "updown", "updown|down|alter|cycle")
 	tier := flag.String("tier", "quick", "quick|thorough")
 	outDir := flag.String("out", "", "output directory")
 	flag.Parse()
@@ -32,6 +32,8 @@ func main() {
 		runDownStage(w, *tier)
 	case "alter":
 		runAlterStage(w, *tier)
+	case "cycle":
+		runCycleStage(w, *tier)
 	default:
 		fmt.Fprintln(os.Stderr, "unknown mode")
 		os.Exit(2)
